@@ -96,6 +96,9 @@ def slotted(  # noqa: C901
         cls_dict = {**cls.__dict__}
         # Create only missing slots
         inherited_slots = set().union(*(getattr(c, "__slots__", ()) for c in cls.mro()))
+        # A base class without `__slots__` already provides `__dict__` and `__weakref__`.
+        if any("__slots__" not in vars(c) for c in cls.__mro__[1:-1]):
+            inherited_slots.update(("__dict__", "__weakref__"))
 
         field_names = {f.name: ... for f in dataclasses.fields(cls) if f.name}
         if dict:
